@@ -530,8 +530,7 @@ Print Assumptions c08_names_decode_never_panics.
 (* building blocks of the name tokenizer round trip: (1) the entropy stage of every token byte stream --
    rans_nx16::encode(Flags::empty(), buf) decoded by rans_nx16::decode(.., 0) -- returns the buffer;
    (2) the tokens spell the name, none is empty, there are at most 126, and with fewer than 126 every
-   token is purely alphanumeric or purely not, where parse_u32 is the plain decimal value (the '+'
-   that lexical_core accepts cannot occur) *)
+   token is purely alphanumeric or purely not; the repaired parse_u32 is the plain decimal value *)
 Theorem c08_names_entropy_roundtrip_partial : forall buf,
   Forall (fun b => b < 256) buf -> N.of_nat (length buf) < 268435456 ->
   exists e, nx_encode_s_byte 0 buf = NeOk e /\ nx_decode_s e 0 = DOk buf.
@@ -556,13 +555,13 @@ Proof.
 Qed.
 Print Assumptions c08_names_tokenize_partial.
 
-(* THE WHOLE CODEC: for every well-formed name list -- NUL-terminated names, bytes, shorter than
-   2^28, fewer than 2^26 names, EVERY NAME WITH FEWER THAN 126 TOKENS (which excludes the known class
-   refuted below) -- the model of name_tokenizer::encode answers and the model of
-   name_tokenizer::decode returns exactly the input: tokens (Match, Delta, Delta0, padded and plain
-   digits, chars, strings) read back against the previous name's tokens, the ten byte streams of
-   every token column compressed and rebuilt, duplicates copied from their first occurrence, names
-   joined with NUL *)
+(* THE WHOLE CODEC: for EVERY NUL-terminated name list (bytes, shorter than 2^28, fewer than 2^26
+   names; any number of tokens per name -- the 126-token restriction of the first version was only
+   there because of the defect repaired by /repo fc00545) the model of name_tokenizer::encode
+   answers and the model of name_tokenizer::decode returns exactly the input: tokens (Match, Delta,
+   Delta0, padded and plain digits, chars, strings, the unsplit 126th remainder) read back against
+   the previous name's tokens, the ten byte streams of every token column compressed and rebuilt,
+   duplicates copied from their first occurrence, names joined with NUL *)
 Theorem c08_names_roundtrip : forall src,
   NV.Cram.NamesRt.names_wf src ->
   exists bytes, NV.Cram.Names.names_encode src = NV.Cram.Names.NmOk bytes /\
@@ -575,19 +574,17 @@ Example c08_names_wf_example :
   NV.Cram.NamesRt.names_wf [114; 49; 0; 114; 50; 0; 114; 50; 0; 113; 48; 48; 55; 0].
 Proof.
   unfold NV.Cram.NamesRt.names_wf. repeat split; try (vm_compute; congruence); try (vm_compute; reflexivity).
-  - repeat constructor.
-  - vm_compute. repeat constructor.
+  repeat constructor.
 Qed.
 
-(* REFUTED for the known class `names-plus-sign-number-in-126th-token`: 62 x "a." then "a+5" (126
-   tokens, the last one "+5") is encoded with the remainder stored as the number 5 and decoded
-   without the '+' -- decode(encode(x)) <> x in the model exactly as in the implementation *)
-Theorem c08_names_roundtrip_refuted :
-  exists bytes out, NV.Cram.Names.names_encode NV.Cram.NamesTotal.plus_src = NV.Cram.Names.NmOk bytes /\
-                    NV.Cram.Names.names_decode bytes = NV.Cram.Names.NmOk out /\
-                    out <> NV.Cram.NamesTotal.plus_src.
-Proof. exact NV.Cram.NamesTotal.names_plus_sign_refuted. Qed.
-Print Assumptions c08_names_roundtrip_refuted.
+(* the former defect input of the class `names-plus-sign-number-in-126th-token` (62 x "a." then
+   "a+5": 126 tokens, the last one "+5"; before /repo fc00545 the remainder was stored as the
+   number 5 and decoded without the '+') now round trips -- also an instance of c08_names_roundtrip *)
+Theorem c08_names_former_defect_roundtrips :
+  exists bytes, NV.Cram.Names.names_encode NV.Cram.NamesTotal.plus_src = NV.Cram.Names.NmOk bytes /\
+                NV.Cram.Names.names_decode bytes = NV.Cram.Names.NmOk NV.Cram.NamesTotal.plus_src.
+Proof. exact NV.Cram.NamesTotal.names_plus_sign_roundtrips. Qed.
+Print Assumptions c08_names_former_defect_roundtrips.
 
 (* the full C08 statement, NOT proved beyond the parts above: AAC with EXT (bzip2), the name
    tokenizer and gzip/bzip2/lzma have no Gallina model; rANS Nx16, AAC and fqzcomp are proved
